@@ -153,12 +153,17 @@ def recipes(model_bytes):
   out['last_op_SRQ8'] = [P.rule('^' + re.escape(sc[-1][2]) + '$', '*', 'SRQ8')]
   out['first_op_SRQ8'] = [P.rule('^' + re.escape(sc[0][2]) + '$', '*', 'SRQ8')]
   out['WO'] = [P.rule('.*', '*', 'WO')]
+  # a rule without the optional 'op_config' key (exclusion rules are
+  # commonly written that way)
+  out['a8w8_but_last_op_float'] = out['a8w8'] + [dict(
+      regex='^' + re.escape(sc[-1][2]) + '$', operation='*',
+      algorithm_key='no_quantize')]
   return out
 
 
 PAIRS = [('a8w8', 'last_op_SRQ8'), ('a8w8', 'a16w8'), ('a16w8', 'a8w8'),
          ('first_op_SRQ8', 'last_op_SRQ8'), ('a8w8', 'WO'),
-         ('last_op_SRQ8', 'a8w8')]
+         ('last_op_SRQ8', 'a8w8'), ('a8w8_but_last_op_float', 'WO')]
 
 
 def make_harness(model_bytes, ra, rb):
@@ -609,6 +614,18 @@ def replay(c):
         return bytes(q.quantize(res).quantized_model)
     except Exception as ex:  # pylint: disable=broad-except
       return f'{type(ex).__name__}: {ex}'
+  # caller-owned recipe lists
+  for rr, tag in ((ra, 'A'), (rb, 'B')):
+    mine = copy.deepcopy(rr)
+    before_s = json.dumps(mine, sort_keys=True)
+    try:
+      qq = quantizer_lib.Quantizer(mb, mine)
+      qq.load_quantization_recipe(mine)
+    except Exception:  # pylint: disable=broad-except
+      pass
+    if json.dumps(mine, sort_keys=True) != before_s:
+      bad.append(f'recipe {tag} passed to Quantizer()/load_quantization_'
+                 'recipe() was modified in place')
   ref_b = run(rb, copy.deepcopy(base))
   res = copy.deepcopy(base)
   before = copy.deepcopy(res)
